@@ -1,2 +1,4 @@
 pub mod nfa;
 pub mod rules;
+pub mod mdtok;
+pub mod cramtok;
